@@ -76,9 +76,6 @@ func verifCheckNode(p *pathNode, where string) error {
 	}
 	n := 0
 	for name, m := range p.childRefs {
-		if len(m) == 0 {
-			return fmt.Errorf("node %q: empty reference set kept for %q", where, name)
-		}
 		for ref := range m {
 			n++
 			got, ok := p.childRefNames[ref]
